@@ -100,7 +100,7 @@ func VerifC04Keys() {
 func VerifC04Complaint() {
 	t := vs.Param("t")
 	vs.AssumeHashScalars()
-	verifUseTapeRandomness()
+	VerifUseTapeRandomness()
 	idI := MemberID(1 + vs.Pick("dealer", 3))
 	idJ := MemberID(1 + vs.Pick("recipient", 3))
 	vs.Assume(idI != idJ)
@@ -150,7 +150,7 @@ func VerifC04Complaint() {
 // member id: an honest proof verifies for its own member id.
 func VerifC04Round1Proofs() {
 	vs.AssumeHashScalars()
-	verifUseTapeRandomness()
+	VerifUseTapeRandomness()
 	mid := MemberID(1 + vs.Pick("member", 3))
 	ctx := vs.Bytes("dkg_context", 4)
 	priv := c03Scalar("key")
